@@ -14,7 +14,9 @@ CHECK = dict(
           "with <= 3 blocks (quick) / <= 4 blocks (thorough) swept exhaustively with random contents; "
           "ReachingDefinitions, DiGraphDefUse(deref_mem in {False, True}), DiGraphLiveness, "
           "DiGraphLivenessIRA and -- on the SSA form of the connected graphs -- DiGraphLivenessSSA are "
-          "compared with the path-based model; distinct = distinct (shape, read/write pattern)"),
+          "compared with the path-based model; blocks are registered in random order in half of the graphs, "
+          "and 30% are re-run (reaching definitions / def-use) as hand-built graphs with empty "
+          "pass-through blocks; distinct = distinct (shape, read/write pattern)"),
     assumptions=["identifiers only: memory cells named by ExprMem are not compared (syntactic treatment)",
                  "liveness conventions: nothing is read after an exit through a location without block; "
                  "DiGraphLivenessIRA/SSA read get_out_regs(block) after a block without successor; "
